@@ -10,6 +10,6 @@ CONSTANTS
   Alpha = "P"
   Contexts = {}
   MaxLen = 4
-  TailLen = 2
+  TailLen = 1
   DeepReps = {}
 INVARIANT Emit
